@@ -141,10 +141,20 @@ def binaryPrCurveC : CFam (List Q × List Q) (Q × Q) PRC where
 def widthOr (nc0 : Option Nat) (l : List (List Q × Q)) : Nat :=
   nc0.getD ((l.head?.map (·.1.length)).getD 0)
 
-/-- `MulticlassPrecisionRecallCurve(num_classes = nc0)` -/
+/-- all cached logit rows have the width of the first one. -/
+def uniformB (l : List (List Q × Q)) : Bool :=
+  match l with
+  | [] => true
+  | r :: t => t.all fun r' => r'.1.length == r.1.length
+
+/-- `MulticlassPrecisionRecallCurve(num_classes = nc0)`.  With `num_classes=None` nothing constrains the
+    width of the logit rows at `update`; `torch.cat` of cached inputs of different widths raises at
+    `compute()`. -/
 def multiclassPrCurveC (nc0 : Option Nat) : CFam (Mat × List Q) (List Q × Q) (List PRC) where
   stat := rowSamples
-  out l := multiclassPrCurve (colsOf (l.map (·.1)) (widthOr nc0 l)) (l.map (·.2))
+  out l :=
+    if nc0.isNone && !uniformB l then .error .runtime
+    else multiclassPrCurve (colsOf (l.map (·.1)) (widthOr nc0 l)) (l.map (·.2))
   never := .error .runtime
 
 /-- `MultilabelPrecisionRecallCurve(num_labels = nl)` -/
